@@ -291,6 +291,7 @@ class Replacer:
         parts = urllib.parse.urlsplit(base)
         self._scheme, self._location = parts.scheme, parts.netloc
         self._filename = posixpath.split(parts.path)[1]
+        self._query = parts.query
 
     def __call__(self, uri):
         scheme, location, path, query, fragment = urllib.parse.urlsplit(uri)
@@ -306,6 +307,7 @@ class Replacer:
             if not path:
                 # '', '#f' or '?q' mean the imported sheet itself
                 path = self._filename
+                query = query or self._query
             combined = posixpath.normpath(posixpath.join(self.base, path))
             if path.endswith('/') or path.split('/')[-1] in ('.', '..'):
                 combined = combined.rstrip('/') + '/'
